@@ -181,6 +181,60 @@ theorem derived_roundtrip_eps (H : B → Nat) (hH : ∀ b, H b < 2^64) (d : Def)
       ∧ e.erase = v :=
   C02.deEps_ser H hH _ name v base hT hv hname hlen hb
 
+/-! ### Well-formedness at definition level -/
+
+/-- The conditions, stated on the definition and its arguments, under which the derived type is in
+    the universe the round-trip theorems cover: a power-of-two `align(N)`, every field type
+    well formed at the arguments, fewer than 2^64 variants (2^32 for a zero-copy enum, whose tag is
+    a C `int`), a struct has exactly one field list, and — for a zero-copy declaration — every field
+    type `ZeroCopy` at the arguments (what the derived code demands at compile time, C17). -/
+def okAt (d : Def) (ta : List Ty) (ca : List Nat) : Bool :=
+  pow2b d.alignAttr &&
+  d.variants.all (fun v => v.fields.all fun f => (f.te.inst ta ca).wf) &&
+  decide (d.variants.length < 2^64) &&
+  (if d.zero then d.variants.all (fun v => v.fields.all fun f => (f.te.inst ta ca).isZC) && decide (d.variants.length < 2^32) else true) &&
+  (d.isEnum || d.variants.length == 1)
+
+theorem instFields_wf (ta : List Ty) (ca : List Nat) : ∀ fs : List FieldDef,
+    (instFields ta ca fs).wf = fs.all fun f => (f.te.inst ta ca).wf
+  | [] => by simp [instFields, Fields.wf]
+  | f :: fs => by simp [instFields, Fields.wf, instFields_wf ta ca fs]
+
+theorem instFields_allZC (ta : List Ty) (ca : List Nat) : ∀ fs : List FieldDef,
+    (instFields ta ca fs).allZC = fs.all fun f => (f.te.inst ta ca).isZC
+  | [] => by simp [instFields, Fields.allZC]
+  | f :: fs => by simp [instFields, Fields.allZC, instFields_allZC ta ca fs]
+
+theorem instVariants_wf (ta : List Ty) (ca : List Nat) : ∀ vs : List VariantDef,
+    (instVariants ta ca vs).wf = vs.all fun v => v.fields.all fun f => (f.te.inst ta ca).wf
+  | [] => by simp [instVariants, Variants.wf]
+  | v :: vs => by simp [instVariants, Variants.wf, instFields_wf, instVariants_wf ta ca vs]
+
+theorem instVariants_allZC (ta : List Ty) (ca : List Nat) : ∀ vs : List VariantDef,
+    (instVariants ta ca vs).allZC = vs.all fun v => v.fields.all fun f => (f.te.inst ta ca).isZC
+  | [] => by simp [instVariants, Variants.allZC]
+  | v :: vs => by simp [instVariants, Variants.allZC, instFields_allZC, instVariants_allZC ta ca vs]
+
+theorem instVariants_length (ta : List Ty) (ca : List Nat) : ∀ vs : List VariantDef,
+    (instVariants ta ca vs).length = vs.length
+  | [] => by simp [instVariants, Variants.length]
+  | v :: vs => by simp [instVariants, Variants.length, instVariants_length ta ca vs]
+
+/-- The derived type is well formed exactly when the definition is, at the arguments. -/
+theorem derive_wf_iff (d : Def) (ta : List Ty) (ca : List Nat) : (d.derive ta ca).wf = okAt d ta ca := by
+  simp only [Def.derive, Ty.wf, okAt, instVariants_wf, instVariants_allZC, instVariants_length]
+
+/-- **Every definition of the grammar, every instantiation, every value, both modes**: stated on
+    the definition. -/
+theorem grammar_roundtrip (H : B → Nat) (hH : ∀ b, H b < 2^64) (d : Def) (ta : List Ty) (ca : List Nat)
+    (name : B) (v : Val) (base : Nat) (hd : okAt d ta ca = true) (hv : (d.derive ta ca).wt v = true)
+    (hname : validUtf8 name = true) (hlen : name.length < 2^63)
+    (hb : ∀ b ∈ (d.derive ta ca).blocks v ((d.derive ta ca).header H name).length, base % b.unit = 0) :
+    (d.derive ta ca).deFull H ((d.derive ta ca).ser H name v) = .ok (v, ((d.derive ta ca).ser H name v).length) ∧
+    ∃ e, (d.derive ta ca).deEps H base ((d.derive ta ca).ser H name v) = .ok (e, ((d.derive ta ca).ser H name v).length) ∧ e.erase = v := by
+  have hT : (d.derive ta ca).wf = true := by rw [derive_wf_iff]; exact hd
+  exact ⟨C01.deFull_ser H hH _ name v hT hv hname hlen, C02.deEps_ser H hH _ name v base hT hv hname hlen hb⟩
+
 /-! ### (iv) Attribute coherence -/
 
 /-- `check_attrs` refuses exactly: zero-copy without `repr(C)`, and zero-copy together with
@@ -198,6 +252,9 @@ def exDef : Def :=
     variants := [⟨[0x53], [⟨[0x61], .param 0⟩, ⟨[0x62], .vec (.param 0)⟩, ⟨[0x63], .constArray (.ty (.prim (.int .u8))) 0⟩]⟩] }
 
 example : exDef.replacedParams = [0] := by decide
+example : okAt exDef [.vec (.prim (.int .u32))] [3] = true := by
+  simp [exDef, okAt, TyExpr.inst, Ty.wf, Ty.isZC, Ty.isDeep, Ty.copyKind, pow2b]
+  decide
 example : (exDef.derive [.vec (.prim (.int .u32))] [3]).wf = true := by
   simp [exDef, Def.derive, instVariants, instFields, TyExpr.inst, TyExpr.isParam, zipConsts, Ty.wf, Variants.wf, Fields.wf,
     Variants.length, Ty.isZC, Ty.isDeep, Ty.copyKind, pow2b]
